@@ -42,6 +42,12 @@ def main(argv=None):
       os.path.realpath(repo)), ml_metrics.__file__
   ctx = runner.Ctx(mod.PROPERTY, mod.LEVEL, args.tier, seed)
   ctx.only = [s for s in args.only.split(',') if s]
+  # safety net for the schedule explorations of the thorough tier: past this
+  # wall-clock budget open subtrees are abandoned and the run is reported as
+  # capped (exhaustive: false), never as exhaustive
+  budget = os.environ.get('VERIF_TIME_BUDGET') or (
+      '' if args.tier == 'quick' else '1500')
+  ctx.deadline = (ctx.t0 + float(budget)) if budget else None
   if args.replay:
     data = json.load(open(args.replay))
     mod.replay(ctx, data)
